@@ -356,7 +356,7 @@ void table(Tab& t)
     SCN("cwchar", "wcscpy(dest,src)", "%s", "src=null", true, { vf::Buf<wchar_t> d(2); wchar_t const* volatile s = nullptr; etl::wcscpy(d.data(), s); });
     SCN("cwchar", "wcsncpy(dest,src,n)", "%s", "dest=null", true, { vf::Buf<wchar_t> s(2); s[0] = L'a'; s[1] = 0; wchar_t* volatile d = nullptr; etl::wcsncpy(d, s.data(), 1); });
     SCN("cwchar", "wcsncpy(dest,src,n)", "%s", "src=null", true, { vf::Buf<wchar_t> d(2); wchar_t const* volatile s = nullptr; etl::wcsncpy(d.data(), s, 1); });
-    SCN("bitset<4>", "ctor(string_view,pos,n)", "%s", "more-characters-than-bits", true, { vf::Buf<char> b(6); std::memset(b.data(), '1', 6); etl::bitset<4> x(etl::string_view(b.data(), 6)); use(x); });
+    // (bitset string constructors accept more characters than bits, like std::bitset: no precondition to violate)
     for (std::size_t b : beyond) {
         std::size_t p9 = b >= SMAX / 2 ? b : 9 + b;
         SCN("basic_bitset<9,uint8>", "operator[](pos)", "%s", bcls(p9, 9), true, { etl::basic_bitset<9, unsigned char> x; WATCH(x); x[p9] = true; });
